@@ -151,6 +151,11 @@ def _run_shard_pyopt(args):
             argv.insert(1, "-OO" if "hashseed" in toks else "-O")       # assert statements (and, with -OO, docstrings) stripped
         if "bb" in toks:
             argv.insert(1, "-bb")                                          # str(bytes) / bytes-vs-str comparison raise BytesWarning
+        env.pop("VERIF_FORCE_PYOPT", None)
+        if "maxdigits" in toks:
+            # the interpreter's int <-> decimal string conversion limit lowered to its minimum (what PYTHONINTMAXSTRDIGITS=640 or
+            # sys.set_int_max_str_digits(640) in an application does): decimal formatting of an integer above ~2126 bits raises ValueError
+            env["PYTHONINTMAXSTRDIGITS"] = "640"
         if "hashseed" in toks:
             env["PYTHONHASHSEED"] = str(1 + (int(seed) * 7919 + len(name)) % 4000000)      # another string-hash seed than the parent's
         p = subprocess.run(argv + ["-c", code], input=json.dumps([prop, tier, seed, name, kw, budget]).encode(),
@@ -171,7 +176,7 @@ def _run_shard_pyopt(args):
         r["crash"] = "child did not take the gmpy code path"
     r["classes"] = {"pyopt:" + k: v for k, v in r["classes"].items()}
     r["nontrivial"] = {"pyopt:" + k for k in r["nontrivial"]}
-    tag = "[python %s] " % " ".join(x for x in argv[1:] if x in ("-O", "-OO", "-bb", "error")).replace("error", "-W error") if (toks & {"opt", "bb", "werror"}) else ("[gmpy code path, mpz = int] " if "fakegmpy" in toks else "[other PYTHONHASHSEED] ")
+    tag = "[python %s] " % " ".join(x for x in argv[1:] if x in ("-O", "-OO", "-bb", "error")).replace("error", "-W error") if (toks & {"opt", "bb", "werror"}) else ("[gmpy code path, mpz = int] " if "fakegmpy" in toks else ("[PYTHONINTMAXSTRDIGITS=640] " if "maxdigits" in toks else "[other PYTHONHASHSEED] "))
     for v in r["violations"]:
         v["what"] = tag + v["what"]
     return r
@@ -273,6 +278,9 @@ def _start_guard():
 
 def _run_shard(args):
     prop, tier, seed, name, kwargs, budget = args
+    if os.environ.get("VERIF_FORCE_PYOPT") and not kwargs.get("_pyopt"):      # experiment switch: every shard in a child interpreter with these tokens
+        kwargs = dict(kwargs, _pyopt=os.environ["VERIF_FORCE_PYOPT"])
+        args = (prop, tier, seed, name, kwargs, budget)
     if kwargs.get("_pyopt"):
         return _run_shard_pyopt(args)
     if prop != "C20":
